@@ -978,6 +978,31 @@ def _normalizer_on_path(chk, prog, mod, cls, path):
         elif why_nc:
             chk.note("transpose", "%s:%s.fill_fwd" % (FN, cname), "not comparable: %s" % why_nc)
             chk.count("transpose not-comparable")
+        # ---- symbolic derivative of the value routine against the forward-mode coefficients
+        if len(fst) == 1 and fst[0].op == "=" and fst[0].depth == 0 and isinstance(fst[0].value, Poly):
+            V = fst[0].value
+            for role, d in (("X", "DX"), ("RHO", "DRHO"), ("INH", "DINH")):
+                inst = "%s%s d(fill_fwd)/d%s" % (cname, ptxt, role.lower())
+                try:
+                    want = mono.diff(V, ("n", role))
+                    verdict = mono.definitely_different(want, fw[d])
+                except NotComparable as e:
+                    chk.note("deriv-symbolic", "%s:%s" % (FN, cname), "d/d%s: %s" % (role.lower(), e))
+                    chk.count("deriv-symbolic not-comparable")
+                    continue
+                if verdict == "equal":
+                    chk.ok("deriv-symbolic", inst + " = " + mono.show(want)[:60], nontrivial=not want.is_zero())
+                elif verdict == "different":
+                    chk.violation("deriv-symbolic", FN, cname + ".get_normed_feature_deriv",
+                                  "d(fill_fwd)/d%s%s" % (role.lower(), ptxt), ms["get_normed_feature_deriv"].lineno,
+                                  "fill_fwd computes xn = %s ; its derivative with respect to %s is  %s  but "
+                                  "get_normed_feature_deriv multiplies d%s by  %s" % (
+                                      mono.show(V)[:120], role.lower(), mono.show(want)[:200], role.lower(),
+                                      mono.show(fw[d])[:200]), instance=inst)
+                else:
+                    chk.note("deriv-symbolic", "%s:%s" % (FN, cname), "d/d%s not comparable: %s vs %s" % (
+                        role.lower(), mono.show(want)[:80], mono.show(fw[d])[:80]))
+                    chk.count("deriv-symbolic not-comparable")
 
 
 def slmode_literals(fns):
@@ -1110,6 +1135,33 @@ def rule_sl_transpose(chk, prog):
             chk.note("sl-transpose", "%s slmode=%s" % (FN, mname), "not comparable: %s" % e)
             chk.count("sl-transpose not-comparable")
             continue
+        # _get_drho_and_dinh is the differential of _get_rho_and_inh
+        if isinstance(val, tuple) and len(val) == 2 and all(isinstance(v, Poly) for v in val):
+            for k in ks:
+                var = input_variable(list(val), "X[%d]" % k)
+                for (accn, via), v in zip((("DFDRHO", "rho"), ("DFDINH", "inh")), val):
+                    inst = "slmode=%s d(%s)/dX[%d] of _get_rho_and_inh vs _get_drho_and_dinh" % (mname, via, k)
+                    if var is None:
+                        chk.count("deriv-symbolic not-comparable")
+                        continue
+                    try:
+                        want = mono.diff(v, var)
+                        verdict = mono.definitely_different(want, fw[accn]["DX[%d]" % k])
+                    except NotComparable as e:
+                        chk.note("deriv-symbolic", "%s slmode=%s" % (FN, mname), "d%s/dX[%d]: %s" % (via, k, e))
+                        chk.count("deriv-symbolic not-comparable")
+                        continue
+                    if verdict == "equal":
+                        chk.ok("deriv-symbolic", inst, nontrivial=not want.is_zero())
+                    elif verdict == "different":
+                        chk.violation("deriv-symbolic", FN, "FeatNormalizerList._get_drho_and_dinh",
+                                      "slmode=%s d%s/dX[%d]" % (mname, via, k), f_fwd.lineno,
+                                      "slmode=%s: _get_rho_and_inh computes %s = %s, whose derivative with respect to row "
+                                      "%d is  %s , but _get_drho_and_dinh uses  %s" % (
+                                          mname, via, mono.show(v)[:100], k, mono.show(want)[:160],
+                                          mono.show(fw[accn]["DX[%d]" % k])[:160]), instance=inst)
+                    else:
+                        chk.count("deriv-symbolic not-comparable")
         for k in ks:
             for accn, via in (("DFDRHO", "rho"), ("DFDINH", "inh")):
                 a = fw[accn]["DX[%d]" % k]
@@ -1247,7 +1299,7 @@ def input_variable(forms, name):
         for a in p_.atoms():
             if a[0] == "f" and a[1] in ("max", "min") and Poly.atom(raw).key in a[2]:
                 others = [from_k for from_k in a[2] if from_k != Poly.atom(raw).key]
-                if all(not any(b[0] == "n" and b[1].startswith("x:") for b in mono.from_key(o).atoms()) for o in others):
+                if all(not any(b[0] == "n" and b[1].startswith(("x:", "X[")) for b in mono.from_key(o).atoms()) for o in others):
                     clamps.add(a)
     if not clamps:
         return raw
@@ -1649,6 +1701,8 @@ def analyse(chk):
     chk.floor("mask-sym", 4, "4 slmode branches")
     chk.floor("stateless", 12, "21 map classes + 4 normaliser classes")
     chk.floor("param-dep", 10, "21 map classes")
+    chk.floor("deriv-symbolic", 30, "20 of 21 map classes decided today (42 inputs), 4 normaliser classes x 3, "
+                                    "4 slmode branches x rows x (rho, inh)")
     chk.floor("list-iter", 2, "__call__, fill_vals_, fill_derivs_")
     chk.assumptions += [
         "numeric literals are dimensionless; clamp literals, literal 0 and additive regularisers <= 1e-6 are unit-polymorphic",
@@ -1656,10 +1710,8 @@ def analyse(chk):
         "calls made for effect keep the symbolic identity of their array arguments",
     ]
     chk.not_decided += [
-        "numeric coefficients of a map's derivative formula (VZMap.fill_deriv_ is wrong for gamma != 1 and "
-        "type-checks; deciding it needs differentiation of the value expression)",
-        "that _get_drho_and_dinh is the differential of _get_rho_and_inh (only its transposition is decided)",
-        "d(xn)/drho and d(xn)/dinh of a normaliser against fill_fwd (only d(xn)/dx, fill_fwd being linear in x)",
+        "derivatives of value routines outside the differentiable fragment (OmegaMap today: clipping, masks, NaN "
+        "handling); derivatives at or below a clamp (the comparison is made on the unclamped region)",
     ]
 
 
@@ -1742,6 +1794,23 @@ def mutants(tree):
         M("ZMap value gets a constant prefactor the derivative does not know (scale moved out of fill_deriv_)", TD,
           "            2\n            * dfdy\n            * self.scale\n            * self.gamma\n",
           "            2\n            * dfdy\n            * self.gamma\n", expect="param-dep"),
+        M("VZMap derivative reverted to the gamma-dependent polynomial (right only for gamma = 1)", TD,
+          "dfdx[self.i] += fac * (1 + 2 * xi)",
+          "dfdx[self.i] += fac * (1 + (self.gamma + 1) * xi + (self.gamma - 1) * xi * (3 * xi + 2 * xi * xi))",
+          expect="deriv-symbolic"),
+        M("SLTMap derivative loses a factor 2", TD, "v0 = -2 * dfdy * tau * fac * fac\n        vt = 2 * dfdy * tau0 * fac * fac\n        dfdx[self.i] += v0 * self.const * (5.0 / 3) * rho ** (2.0 / 3)\n        dfdx[self.j] += vt",
+          "v0 = -dfdy * tau * fac * fac\n        vt = 2 * dfdy * tau0 * fac * fac\n        dfdx[self.i] += v0 * self.const * (5.0 / 3) * rho ** (2.0 / 3)\n        dfdx[self.j] += vt",
+          expect="deriv-symbolic"),
+        M("V4Map derivative signs swapped", TD, "        dfdx[i] -= tmp\n        dfdx[j] += tmp", "        dfdx[i] += tmp\n        dfdx[j] -= tmp",
+          expect="deriv-symbolic"),
+        M("V2Map derivative w.r.t. x[i] loses the dimensionless constant a = 2**1.5", TD,
+          "        dfdx[i] += dfdy * tmp * a\n", "        dfdx[i] += dfdy * tmp\n", expect="deriv-symbolic"),
+        M("InhomogeneityNormalizer forward derivative loses the factor power", FN,
+          "dinh * self.power * inh ** (\n            self.power - 1\n        )", "dinh * inh ** (\n            self.power - 1\n        )",
+          expect="deriv-symbolic"),
+        M("_get_drho_and_dinh: d(inh)/d(rho) coefficient off below the tests' tolerance", FN,
+          "dinh -= 8.0 / 3 * grad / (8 * CFC * rho ** (11.0 / 3)) * drho", "dinh -= 8.0000001 / 3 * grad / (8 * CFC * rho ** (11.0 / 3)) * drho",
+          expect="deriv-symbolic"),
         M("fill_vals_ writes every map into row 0", TD, "self.feat_list[i].fill_feat_(tdesc[i], xdesc)",
           "self.feat_list[i].fill_feat_(tdesc[0], xdesc)", count=2, expect="list-iter"),
     ]
